@@ -75,12 +75,12 @@ func genC19(t *rapid.T) c19Case {
 			back := map[int]int{0: 4, 2: 7}[d]
 			c.Ops = append(c.Ops, c19Op{Kind: "sendcosmos", Ch: ch, Denom: d, U: rapid.IntRange(0, 2).Draw(t, "ru"), Amt: rapid.Int64Range(100, 100_000).Draw(t, "ramt")},
 				c19Op{Kind: "deliver", Idx: 99, How: 0, Ch: ch},
-				c19Op{Kind: "recv", Ch: ch, Denom: back, Receiver: rapid.SampledFrom([]int{0, 0, 1, 2, 4}).Draw(t, "rrecv"), Amt: rapid.Int64Range(1, 100_000).Draw(t, "rback"), Memo: rapid.SampledFrom([]int{0, 0, 1}).Draw(t, "rmemo"), Sender: rapid.IntRange(0, 2).Draw(t, "rsender")})
+				c19Op{Kind: "recv", Ch: ch, Denom: back, Receiver: rapid.SampledFrom([]int{0, 0, 1, 2, 4}).Draw(t, "rrecv"), Amt: rapid.Int64Range(1, 100_000).Draw(t, "rback"), Memo: rapid.SampledFrom([]int{0, 0, 1}).Draw(t, "rmemo"), Sender: rapid.IntRange(0, 4).Draw(t, "rsender")})
 			continue
 		}
 		c.Ops = append(c.Ops, c19Op{Kind: rapid.SampledFrom(kinds).Draw(t, "kind"), Ch: rapid.IntRange(0, 1).Draw(t, "ch"), Denom: rapid.IntRange(0, 8).Draw(t, "denom"),
 			Receiver: rapid.SampledFrom([]int{0, 0, 0, 1, 2, 2, 3, 4, 4, 4}).Draw(t, "receiver"), Amount: rapid.SampledFrom([]int{0, 0, 0, 0, 1, 2, 3}).Draw(t, "amountKind"), Amt: rapid.Int64Range(1, 100_000).Draw(t, "amt"),
-			Memo: rapid.SampledFrom([]int{0, 0, 0, 1, 1, 2, 3, 4}).Draw(t, "memo"), Sender: rapid.IntRange(0, 2).Draw(t, "sender"), U: rapid.IntRange(0, 2).Draw(t, "u"), Idx: rapid.IntRange(0, 9).Draw(t, "idx"), How: rapid.IntRange(0, 2).Draw(t, "how")})
+			Memo: rapid.SampledFrom([]int{0, 0, 0, 1, 1, 2, 3, 4}).Draw(t, "memo"), Sender: rapid.IntRange(0, 4).Draw(t, "sender"), U: rapid.IntRange(0, 2).Draw(t, "u"), Idx: rapid.IntRange(0, 9).Draw(t, "idx"), How: rapid.IntRange(0, 2).Draw(t, "how")})
 	}
 	return c
 }
@@ -154,7 +154,35 @@ func runC19(c c19Case, rec *ev.Recorder) *Failure {
 	nativeDenom := map[string]string{"FX": fxtypes.DefaultDenom, "USDT": usdtTok.Base}
 	toks := []tok{{"USDT", usdtDenoms, usdtTok.ERC20}, {"FX", []string{fxtypes.DefaultDenom}, wfx}, {"ATOM", []string{atomTrace.IBCDenom()}, atomPair.GetERC20Contract()}, {"OSMO", []string{"osmo", osmoTrace.IBCDenom()}, osmoPair.GetERC20Contract()}}
 	accounts := map[string]common.Address{"user 0": f.Users[0].Hex(), "user 1": f.Users[1].Hex(), "user 2": f.Users[2].Hex(), "recorder": recorder, "reverter": reverter}
-	extSenders := []string{"cosmos1qypqxpq9qcrsszg2pvxq6rs0zqg3yyc5lzv7xu", "cosmos1zg69v7yszg69v7yszg69v7yszg69v7ys8xdv96", f.Users[1].Acc().String()}
+	// the sender field of a packet is whatever the counterparty chain writes: foreign bech32 accounts, the bech32 form of a local
+	// account, and hex forms of local accounts (an EVM-based counterparty)
+	extSenders := []string{"cosmos1qypqxpq9qcrsszg2pvxq6rs0zqg3yyc5lzv7xu", "cosmos1zg69v7yszg69v7yszg69v7yszg69v7ys8xdv96", f.Users[1].Acc().String(),
+		f.Users[0].Hex().String(), strings.ToLower(f.Users[2].Hex().String())}
+	{
+		// no (channel, sender) pair derives a local account or what the sender string itself decodes to, and distinct pairs derive distinct accounts
+		seen := map[common.Address]string{}
+		for _, sdr := range extSenders {
+			for _, chn := range chans {
+				d := ibcmwtypes.IntermediateSender(chn.CPPort, chn.CPChannel, sdr)
+				pair := chn.CPChannel + "/" + sdr
+				for who, a := range accounts {
+					if a == d {
+						return failf("C19/memo-call-impersonates", "a memo call of sender %s over %s would run as the local account %s (%s)", sdr, chn.CPChannel, who, a)
+					}
+				}
+				if common.IsHexAddress(sdr) && common.HexToAddress(sdr) == d {
+					return failf("C19/memo-call-impersonates", "a memo call of sender %s over %s would run as the address the sender string spells", sdr, chn.CPChannel)
+				}
+				if acc, err := sdk.AccAddressFromBech32(sdr); err == nil && common.BytesToAddress(acc) == d {
+					return failf("C19/memo-call-impersonates", "a memo call of sender %s over %s would run as the address the sender string decodes to", sdr, chn.CPChannel)
+				}
+				if other, dup := seen[d]; dup {
+					return failf("C19/memo-call-sender-collision", "senders %s and %s derive the same memo-call account %s", other, pair, d)
+				}
+				seen[d] = pair
+			}
+		}
+	}
 	for i, s := range extSenders { // the addresses memo calls are made from are tracked too: nobody funds them
 		for ci, ch := range chans {
 			accounts[fmt.Sprintf("intermediate sender %d/%d", i, ci)] = ibcmwtypes.IntermediateSender(ch.CPPort, ch.CPChannel, s)
@@ -410,6 +438,9 @@ func runC19(c c19Case, rec *ev.Recorder) *Failure {
 					if a == got && !strings.HasPrefix(who, "intermediate sender") {
 						return failf("C19/memo-call-impersonates", "%s: the memo call ran as the local account %s", desc, who)
 					}
+				}
+				if common.IsHexAddress(sender) && common.HexToAddress(sender) == got {
+					return failf("C19/memo-call-impersonates", "%s: the memo call ran as the address the foreign sender string spells", desc)
 				}
 				if acc, err := sdk.AccAddressFromBech32(sender); err == nil && common.BytesToAddress(acc) == got {
 					return failf("C19/memo-call-impersonates", "%s: the memo call ran as the address the foreign sender string decodes to", desc)
